@@ -35,9 +35,9 @@ Theorem C15_shallow_known : forallb (fun p => pair_mem (fst p) (snd p) known_sha
 Proof. vm_compute. reflexivity. Qed.
 Print Assumptions C15_shallow_known.
 
-(* the transient list is justified by a checked fact: the apply path touches those fields exactly at the reviewed places
-   (every read is preceded by a write that re-establishes the value on every replica, restored or not) *)
-Theorem C15_transient_access_reviewed : access_reviewed transient_access reviewed_access = true.
+(* the transient list is justified by checked facts. First: the fields whose stale value is harmless by their nature
+   (Tables.exposable_fields: caches, locks, handles) are read in the apply path only by the reviewed functions *)
+Theorem C15_transient_access_reviewed : reads_reviewed transient_access reviewed_access = true.
 Proof. vm_compute. reflexivity. Qed.
 Print Assumptions C15_transient_access_reviewed.
 
@@ -53,7 +53,7 @@ Example C15_persistent_nonempty :
   forallb (fun p => match lookup types (fst p) with Some t => mem (snd p) (ty_fields t) | None => false end) (transient ++ known_gaps ++ known_shallow) = true.
 Proof. vm_compute. repeat split. Qed.
 
-(* the transient list is justified by a GENERATED fact too: apart from the fields whose stale value is harmless by their
+(* second, a GENERATED fact: apart from the fields whose stale value is harmless by their
    nature (Tables.exposable_fields), no root of the apply path reaches a read of a transient field that is not preceded by
    an assignment to it - so what such a reader sees never depends on whether the replica restored a snapshot *)
 Theorem C15_transient_reads_dominated : forallb (fun e => mem (fst e) exposable_fields) exposed_reads = true.
